@@ -1,7 +1,7 @@
 SPECIFICATION SSpec
 CONSTANTS
   Vars = {"a", "b", "c"}
-  Fams = {"clause", "imply", "amo", "pb"}
+  Fams = {"clause", "amo", "pb"}
   ClauseMax = 1
   AmoSeq = 0
   AmoMax = 3
@@ -13,7 +13,7 @@ CONSTANTS
   PbNeg = 0
   PbPos = 2
   PbBound = 3
-  PbOps = {">=", ">"}
+  PbOps = {">="}
   MaxMgrs = 2
   MaxPosts = 2
   EMIT = TRUE
